@@ -119,6 +119,8 @@ def kernel_samples(comp: str, tier: str) -> dict | None:
     """simulator, loader and parser: the Lean kernel itself (by decide) confirms model = implementation on small generated inputs"""
     if comp not in ("sim", "loader", "text", "queue"):
         return None
+    if os.environ.get("VERIF_SKIP_KERNEL") == "1":     # development runs over many mutated trees (checks/seeded.py) only
+        return None
 
     def compute():
         import subprocess
